@@ -4,13 +4,15 @@
       pkg/provisioning/bootguard/tools.go      (StitchFITEntries)
       pkg/tools/ifd.go                         (CalcImageOffset)
       pkg/tools/acm.go                         (LookupACMSize)
-    as the code is (after fix 3bb7cec), including uintN wrap-around, panics, short reads and
+    as the code is (after the fixes 98fb605 CalcImageOffset on a bare BIOS region, d896621 int
+    segment counter, 06c79de SM3 name), including uintN wrap-around, panics, short reads and
     writes past the end of the file.
 
     Third-party parsers are NOT modelled: their results are inputs.
       - the FIT is a [list fit_entry] (what fit.GetEntries returns, header entry included);
       - the outcome of the three layout probes of CalcImageOffset (IFD BIOS region, coreboot
-        FMAP "COREBOOT" area, bare BIOS region) is a [layout];
+        FMAP "COREBOOT" area, bare BIOS region) is a [layout]; the length of the image is a
+        separate argument [n];
       - the CBFS directory is a [list cbfs_file].
     Hashes are not computed: where the code returns a digest the model returns the preimage. *)
 From CSS Require Import Lib.Base.
@@ -37,12 +39,13 @@ Inductive layout : Type :=
 | LBiosOnly                  (* neither; uefi.NewBIOSRegion(image) succeeded *)
 | LNone.                     (* all three failed *)
 
-Definition calc_offset (l : layout) (addr : Z) : outcome Z :=
+(** [n] = len(image) *)
+Definition calc_offset (l : layout) (n : Z) (addr : Z) : outcome Z :=
   match l with
   | LIFD off size | LCoreboot off size =>
       (* uint64(off+size) - BasePhysAddr + addr, off+size in uint32 *)
       Ok (wrap64 (wrap32 (off + size) - BASE + addr))
-  | LBiosOnly => Ok (wrap64 (BASE - addr))       (* consts.BasePhysAddr - addr *)
+  | LBiosOnly => Ok (wrap64 (n - BASE + addr))   (* uint64(len(image)) - consts.BasePhysAddr + addr *)
   | LNone => Err 1
   end.
 
@@ -96,9 +99,9 @@ Fixpoint count_sel {E} (sel : E -> bool) (es : list E) : Z :=
   | e :: t => (if sel e then 1 else 0) + count_sel sel t
   end.
 
-(** [var ibbCount uint8; ... ibbCount++; make([]ibbElement, ibbCount)] then the index walk *)
+(** [var ibbCount int; ... ibbCount++; make([]ibbElement, ibbCount)] then the index walk *)
 Definition collect_segs {E} (sel : E -> bool) (mk : E -> segment) (es : list E) : outcome (list segment) :=
-  fill_segs sel mk es 0 (repeat zero_seg (Z.to_nat (wrap8 (count_sel sel es)))).
+  fill_segs sel mk es 0 (repeat zero_seg (Z.to_nat (count_sel sel es))).
 
 Definition create_segments (flags : Z) (fit : list fit_entry) : outcome (list segment) :=
   collect_segs is_startup (startup_seg flags) fit.
@@ -143,7 +146,7 @@ Definition excluded (s : segment) : bool := negb (Z.land (sg_flags s) 1 =? 0).
 
 (** Seek(int64(addr)) then Read into make([]byte, size) on a bytes.Reader *)
 Definition read_segment (l : layout) (img : list Z) (s : segment) : outcome (list Z) :=
-  bind (calc_offset l (sg_base s)) (fun off =>
+  bind (calc_offset l (zlen img) (sg_base s)) (fun off =>
     if W63 <=? off then Err 2                        (* negative position *)
     else if zlen img <=? off then Err 3              (* io.EOF, also for size 0 *)
     else Ok (read_padded img off (sg_size s))).
@@ -170,10 +173,11 @@ Definition get_ibbs_digest (ver alg : Z) (l : layout) (img : list Z) (segs : lis
   if alg_supported ver alg then bind (digest_preimage l img segs) (fun p => Ok (alg, p)) else Err 4.
 
 (** CreateIBBDigest goes through HashAlg.String() and back through GetAlgFromString:
-    "SHA512" and "SM3_256" are not accepted on the way back. *)
+    "SHA512" is not accepted on the way back; SM3, which String() prints as "SM3_256", is
+    handed over as "SM3" (fix 06c79de). *)
 Definition alg_name_roundtrips (ver alg : Z) : bool :=
   if ver =? 1 then (alg =? 4) || (alg =? 11)
-  else (alg =? 4) || (alg =? 11) || (alg =? 12).
+  else (alg =? 4) || (alg =? 11) || (alg =? 12) || (alg =? 18).
 
 Fixpoint create_ibb_digest (ver : Z) (algs : list Z) (l : layout) (img : list Z) (segs : list segment)
   : outcome (list (Z * list Z)) :=
@@ -246,18 +250,19 @@ Definition stitch_manifest (l : layout) (orig file : list Z) (e : fit_entry) (ne
       let dl := manifest_data_len (zlen orig) e in
       if dl =? 0 then (file, false)                              (* FIT entry size is zero *)
       else if dl <? zlen new then (file, false)                  (* new bigger than old *)
-      else match calc_offset l (fe_addr e) with
+      else match calc_offset l (zlen orig) (fe_addr e) with
            | Ok off => if W63 <=? off then (file, false)         (* WriteAt: negative offset *)
                        else (write_at file off new, true)
            | _ => (file, false)
            end
   end.
 
-Definition stitch_acm (l : layout) (file : list Z) (e : fit_entry) (new : list Z) : list Z * bool :=
+(** [n]: length of the image read at the start (CalcImageOffset(image, ...)) *)
+Definition stitch_acm (l : layout) (n : Z) (file : list Z) (e : fit_entry) (new : list Z) : list Z * bool :=
   match new with
   | [] => (file, true)
   | _ =>
-      match calc_offset l (fe_addr e) with
+      match calc_offset l n (fe_addr e) with
       | Ok off =>
           if W63 <=? off then (file, false)                      (* Seek: negative *)
           else if zlen file <=? off then (file, false)           (* Read: EOF *)
@@ -273,7 +278,7 @@ Definition stitch_acm (l : layout) (file : list Z) (e : fit_entry) (new : list Z
 Definition stitch_entry (l : layout) (orig file : list Z) (e : fit_entry) (acm bpm km : list Z) : list Z * bool :=
   if fe_type e =? T_BPM then stitch_manifest l orig file e bpm
   else if fe_type e =? T_KM then stitch_manifest l orig file e km
-  else if fe_type e =? T_SACM then stitch_acm l file e acm
+  else if fe_type e =? T_SACM then stitch_acm l (zlen orig) file e acm
   else (file, true).
 
 Fixpoint stitch_loop (l : layout) (orig file : list Z) (es : list fit_entry) (acm bpm km : list Z) : list Z * bool :=
